@@ -67,6 +67,21 @@ CLAIMED = {
          'Every ordered pair of the 187-value boundary lattice x 12 binary operators and lattice+float pool x 5 unary operators exhaustively, a 62x62 float/mixed matrix, plus millions of random i32/f64 pairs; each compared on the GarnishNumber methods and on the executed instruction for both data implementations with a wide-integer/IEEE reference. Exhaustive on the stated lattice, sampled beyond it.',
          'Trusts the i128/f64 reference in checks/c09.rs and the platform powf; operands are finite.', 'DESIGN.md §3 C09'),
 }
+FUZZ_TAPE = {'C01','C02','C03','C04','C05','C06','C07','C09','C11','C12','C13','C14','C15','C16','C17','C18','C19','C20'}
+FUZZ_TEXT = {'C02','C03','C04','C05','C06','C07','C13','C19'}
+# phases added after the seeded-change rounds (DESIGN.md §6.5)
+EXTRA_LEVEL = {
+ 'C01': ' Also: every control-flow skeleton of at most 8 (9) nodes over constant conditions, `!!`, `??`, conditionals, else chains, `&&`, `||`, `+` and explicit parentheses; every binary/unary operator on every ordered pair of a 52-value pool, read by the reference parser from the text.',
+ 'C03': ' Also: every string of up to 7 (8) tokens over values, both separators and every bracket kind (statement blocks).',
+ 'C04': ' Also: every string of up to 7 (8) tokens over values, both separators and every bracket kind (statement blocks).',
+ 'C05': ' Also: every string of up to 7 (8) tokens over values, both separators and every bracket kind (statement blocks).',
+ 'C06': ' Also: every string of up to 7 (8) tokens over values, both separators and every bracket kind (statement blocks).',
+ 'C07': ' The boundary pool includes non-ASCII text inside lists, pairs, concatenations, slices and symbol names.',
+ 'C10': ' Also: 40 operand forms written out in the source (literals, comparisons, nested expressions whose body is a test, applied expressions, conditionals) in place of the tested value of every construct.',
+ 'C14': ' Also: every ordered pair of 36 literal spellings of all kinds and quote forms as a two-item list (state left behind by one literal must not change the next).',
+ 'C15': ' Also: every ordered pair of a pool of ~100 constants of every interned kind (same value as integer/float/char/byte/symbol, texts and byte lists of lengths around 8..256 differing in one item) added A, B, A, B to both implementations.',
+ 'C18': ' Annotations are also glued to either neighbour and placed inside list-space and blank-line gaps; the evidence lists, per rewrite kind, in how many programs it was applicable and judged.',
+}
 NOT_YET = 'check not built yet in this round (planned: DESIGN.md §3); no claim is made'
 
 def main():
@@ -74,6 +89,9 @@ def main():
     for pid in ALL:
         if pid not in CLAIMED: continue
         tech, text, note, ref = CLAIMED[pid]
+        text = text + EXTRA_LEVEL.get(pid, '')
+        if pid in FUZZ_TAPE:
+            tech += '; thorough tier adds a coverage-guided libFuzzer stage (cargo-fuzz) that feeds the same tape-decoded generators' + (' and the text-mode oracle' if pid in FUZZ_TEXT else '') + ', every saved input re-judged by the ordinary replay path'
         checks.append({
             'property_id': pid,
             'quick_cmd': f'bin/check {pid} quick',
@@ -98,10 +116,12 @@ def main():
         'engines': [
             {'name': 'gv', 'path': '/verif/harness', 'serves_properties': sorted(CLAIMED),
              'kind_free_text': 'Rust harness: tape-decoder generators driven by proptest (random tapes + shrinking) and hand-written bounded-exhaustive enumerators; cases run in watchdog-guarded, memory-capped worker subprocesses; explicit oracles per property'},
+            {'name': 'gv-fuzz', 'path': '/verif/fuzz', 'serves_properties': sorted(FUZZ_TAPE),
+             'kind_free_text': 'cargo-fuzz / libFuzzer targets `tape` (bytes = choice tape of a check\'s random phase) and `text` (bytes = source text for a check\'s text oracle), run by tools/fuzz_stage.py in the thorough tier; oracles live in the harness crate (engine/fuzzrt.rs); verdicts only through `gv replay` of saved inputs'},
         ],
         'checks': checks,
         'not_applicable': [{'property_id': p, 'reason': NOT_YET} for p in ALL if p not in CLAIMED],
-        'notes': 'bin/check rebuilds the harness (path dependencies on /repo, so the current working tree is compiled) and runs one check; exit 0 held / 1 VIOLATION / 2 inconclusive. known_findings.json lists open and fixed genuine defects.',
+        'notes': 'bin/check rebuilds the harness (path dependencies on /repo, so the current working tree is compiled) and runs one check; exit 0 held / 1 VIOLATION / 2 inconclusive. The thorough tier runs the proptest/enumeration stage and then the coverage-guided stage (GV_FUZZ_SECONDS per mode, default 180; GV_FUZZ=0 skips it). known_findings.json lists open and fixed genuine defects.',
     }
     json.dump(m, open('/verif/MANIFEST.json', 'w'), indent=1)
     print('claimed', sorted(CLAIMED), 'not claimed', len(m['not_applicable']))
